@@ -316,8 +316,16 @@ CellIds(cell, fmt) ==
 \* an observed cell is a record [k |-> "ids" | "lit" | "val", v |-> token ids, s |-> other text / typed value]
 IsIds(c) == c.k = "ids"
 
-EmptyCell == [k |-> "ids", v |-> <<>>, s |-> "", v2 |-> <<>>]
+EmptyCell == [k |-> "ids", v |-> <<>>, s |-> "", v2 |-> <<>>, sep |-> <<>>]
 Max2(a, b) == IF a >= b THEN a ELSE b
+
+\* paragraphs (and other segments) of one cell stay separated: two tokens may touch only inside one segment
+CellSepOK(cell, fmt, oc, dev) ==
+    LET flat == FlatBlocks(cell, [cls |-> "CELL", marks |-> {"tbl"}])
+        seg  == SegOf(flat, fmt, dev)
+    IN \A k \in DOMAIN oc.sep :
+          (oc.sep[k] = 0 /\ oc.v[k] \in DOMAIN seg /\ oc.v[k + 1] \in DOMAIN seg /\ oc.v[k] # oc.v[k + 1])
+             => seg[oc.v[k]] = seg[oc.v[k + 1]]
 
 \* does the table's first row look like a caption row (exactly one non-empty cell, more than one column)?
 CaptionRow(row, fmt) == Len(row) > 1 /\ Cardinality({j \in DOMAIN row : CellIds(row[j], fmt) # <<>>}) = 1
@@ -330,7 +338,8 @@ GridMatches(t, fmt, g, dev) ==
          \A j \in 1..Max2(Len(rows[i]), Len(g.grid[i])) :                          \* ragged rows: padding is don't-care,
             LET src == IF j <= Len(rows[i]) THEN CellIds(rows[i][j], fmt) ELSE <<>>  \* missing cells count as empty
                 oc  == IF j <= Len(g.grid[i]) THEN g.grid[i][j] ELSE EmptyCell
-            IN \/ (IsIds(oc) /\ oc.v = src)                                         \* cell (i,j) in place
+            IN \/ (IsIds(oc) /\ oc.v = src                                          \* cell (i,j) in place,
+                     /\ (j <= Len(rows[i]) => CellSepOK(rows[i][j], fmt, oc, dev)))   \* its paragraphs not glued
                \/ ("Xlsx!HeaderPlaceholder" \in dev /\ fmt = "xlsx" /\ i = 1 /\ src = <<>> /\ oc.k = "lit")
                \/ ("Epub!CellInlineSpaced" \in dev /\ fmt = "epub" /\ oc.k = "lit" /\ oc.v2 = src)
     /\ g.dim[1] = Len(g.grid)                                                      \* get_dim() = shape of get_table()
